@@ -1,7 +1,10 @@
 import FindVerif.Theorems.C18
+import FindVerif.Theorems.C18Layout
 #print axioms FV.C18_test_arg
 #print axioms FV.C18_action_arg
 #print axioms FV.C18_missing_test
 #print axioms FV.C18_missing_action
 #print axioms FV.C18_unknown
 #print axioms FV.C18_text
+#print axioms FV.C18_layout_test_arg
+#print axioms FV.C18_layout_action_arg
